@@ -99,7 +99,7 @@ def select(reg, prop, tier, only=None):
             continue
         if only and h["name"] not in only:
             continue
-        if tier == "quick" and h["tier"] != "quick":
+        if tier == "quick" and h["tier"] != "quick" and not only:
             continue
         if h["tier"] == "probe" and not only:      # experimental harnesses run only when named explicitly
             continue
@@ -224,8 +224,11 @@ def kani_env():
 
 def run_kani(slot, names, per_harness_timeout, total_timeout, extra=(), jobs=None):
     jobs = jobs or max(1, min(NCPU, len(names)))
+    fmt = os.environ.get("VERIF_KANI_FORMAT", "terse")      # "regular" for debugging a single harness (forces -j 1)
+    if fmt != "terse":
+        jobs = 1
     cmd = ["cargo", "kani", "--lib", "-Z", "stubbing", "-Z", "unstable-options",
-           "--target-dir", slot.target, "--output-format", "terse",
+           "--target-dir", slot.target, "--output-format", fmt,
            "--harness-timeout", f"{per_harness_timeout}s"]
     if jobs > 1:
         cmd += ["-j", str(jobs)]
